@@ -35,7 +35,7 @@ def change_score(rng, p, allow_user=True):
     if k == "L1Cost":
         return S("ChangeScore", cost=S("L1Cost", param=None)), 1
     return S("HashChangeScore", seed=int(rng.integers(1000)), modulus=int(_choice(rng, [3, 7, 13])),
-             minsize=1), 1
+             minsize=1, signed=bool(rng.random() < 0.4)), 1
 
 
 def pelt(rng, p, dense_events):
@@ -143,7 +143,7 @@ def cbs(rng, p, dense_events):
         sc = S("LocalAnomalyScore", cost=S("L2Cost", param=None))
     else:
         sc = S("HashLocalAnomalyScore", seed=int(rng.integers(1000)), modulus=int(_choice(rng, [3, 7, 13])),
-               multivariate=mv)
+               multivariate=mv, signed=bool(rng.random() < 0.4))
     mil = 2 * msl if rng.random() < 0.2 else int(rng.integers(2 * msl, 2 * msl + 20))
     scales = [0.0, 0.05, 0.3, 1.0, None] if dense_events else [0.0, 0.3, 1.0, 2.0, None]
     return S("CircularBinarySegmentation", anomaly_score=sc, threshold_scale=_choice(rng, scales),
@@ -166,7 +166,7 @@ def anomaliser(rng, p, dense_events):
     lo = float(_choice(rng, [-1.0, -0.3, 0.0, 0.5]))
     hi = lo + float(_choice(rng, [0.0, 0.3, 1.0, 2.5]))
     return S("StatThresholdAnomaliser", change_detector=inner,
-             stat={"fn": _choice(rng, ["np.mean", "np.median", "stat_range", "stat_first"])},
+             stat={"fn": _choice(rng, ["np.mean", "np.median", "stat_range", "stat_first", "stat_std1"])},
              stat_lower=lo, stat_upper=hi), nmin
 
 
@@ -174,9 +174,23 @@ MAKERS = {"PELT": pelt, "SeededBinarySegmentation": sbs, "MovingWindow": mw, "CA
           "MVCAPA": mvcapa, "CircularBinarySegmentation": cbs, "StatThresholdAnomaliser": anomaliser}
 
 
+def _no_negative_tuned_threshold(spec):
+    """Scores that can be negative are only combined with numeric thresholds (>= 0): a threshold tuned
+    on negative scores can be negative, which is outside every statement's quantifier."""
+    kw = spec.get("kw", {})
+    for v in kw.values():
+        if isinstance(v, dict) and "cls" in v:
+            if v.get("kw", {}).get("signed") and kw.get("threshold_scale", 0) is None:
+                kw["threshold_scale"] = 0.3
+            _no_negative_tuned_threshold(v)
+            if v.get("kw", {}).get("signed") and "change_detector" in kw:
+                pass
+    return spec
+
+
 def random_detector(rng, dense_events=True, pmax=4, which=None):
     """(spec, minimum n, p)"""
     name = which or _choice(rng, DETECTORS)
     p = 1 if name == "StatThresholdAnomaliser" else int(rng.integers(1, pmax + 1))
     spec, nmin = MAKERS[name](rng, p, dense_events)
-    return spec, nmin, p
+    return _no_negative_tuned_threshold(spec), nmin, p
